@@ -5,10 +5,13 @@ package connections
 // Contracts for the relay pagination functions (property C20).
 // Comment-only file: it is compiled only with -tags verif and contains no code.
 
+// The cursor of an offset is the base64 text of "cursor:" followed by the offset in decimal - all of it, whatever the
+// number of digits (the body is verified for that). That cursors of different offsets differ (axiom cursor_injective
+// below) rests on it: a fixed prefix, the decimal rendering and base64 are injective (assumed).
 //@ func OffsetToCursor
 //@   purefn
-//@   trusted
 //@   props C20
+//@   ensures [prefix-and-the-whole-offset-in-decimal] result == base64.encodedOf("cursor:" + itoa(offset))
 
 //@ func Edge.GetCursor
 //@   purefn
